@@ -93,11 +93,11 @@ HasBranch(s) == \E j \in DOMAIN s : s[j].k \in {"alt", "rep"}
 BranchInUnboundedRep(s) == \E j \in DOMAIN s :
    \/ s[j].k = "rep" /\ ((s[j].hi = INF /\ HasBranch(s[j].bd)) \/ BranchInUnboundedRep(s[j].bd))
    \/ s[j].k = "alt" /\ \E x \in DOMAIN s[j].bs : BranchInUnboundedRep(s[j].bs[x])
-(* an alternation branch (of two or more) ends in a tree wildcard (KF30) *)
+(* an alternation branch ends in a tree wildcard (KF30) *)
 RECURSIVE TreeLastInAltBranch(_)
 TreeLastInAltBranch(s) == \E j \in DOMAIN s :
    \/ s[j].k = "alt" /\ \E x \in DOMAIN s[j].bs :
-         (Len(s[j].bs) >= 2 /\ s[j].bs[x] # <<>> /\ s[j].bs[x][Len(s[j].bs[x])].k = "tree")
+         (s[j].bs[x] # <<>> /\ s[j].bs[x][Len(s[j].bs[x])].k = "tree")
          \/ TreeLastInAltBranch(s[j].bs[x])
    \/ s[j].k = "rep" /\ TreeLastInAltBranch(s[j].bd)
 (* some character class lists the separator (such a class matches nothing, C11) *)
